@@ -1,5 +1,8 @@
 import PyYetiVerif.Model.Extrema
 import PyYetiVerif.Model.ApplyUf
+import PyYetiVerif.Model.ApplyUfFull
+import PyYetiVerif.Model.ExtremaMerge
+import PyYetiVerif.Model.ExtremaPsd
 /-! Line protocol for C16.  Values are integers, `nan` = NaN; labels are tokens without blanks;
 segments are separated by ` ; `.
 
@@ -15,8 +18,26 @@ segments are separated by ` ; `.
   lbl case lower useExt doappend     → label
   uf ; ruf euf duf suf ; … ;; kind m b k a v d a v d … ; …     (rationals `p/q`)
         → per uf `|`, per mode `;`, per sample `,` : `a v d ds dd`
+
+Doubles travel as the decimal value of their IEEE bit pattern (`b…` below).
+
+  uffull given|gauss ; n nrb nt ; rf… ; none|vec b…|mat b… ; vec b…|mat b… ; k (n·n) ; kinvE ; kinvR ;
+         a (n·nt, row major) ; v ; d ; ruf euf duf suf ; …
+        → per uf `|`, per column `;` : `a… , v… , d… , ds… , dd…`  | `singular`
+          (`given`: the factorisations are the matrices sent; `gauss`: the driver inverts `k[ee]`,
+           `k[rf,rf]` itself by Gauss-Jordan elimination with partial pivoting)
+  psdnum pf ; f… ; F₁… ; re₁… ; im₁… ; F₂… ; …      → `psd… | rms pk pkfreq`          (Float)
+  psdext ; lab pk x ; …                              → `cur | hv hx lv lx , …`          (order keys)
+  freqstore ; f… ; f… ; …                            → `ok` | `value-error`            (order keys)
+  merge ; existing… ; incoming… ; old new old new …  → keys | `value-error`
+  calcext ; mx… ; mn… ; cases…                       → `hv hlab lv llab` | `value-error` (order keys)
+  statext k ; mx… ; mn…                              → `hi lo`                          (Float)
+  addmm mx mn x1 x2 hasx maxcase mincase|-           → `hv hx hlab lv lx llab`
 -/
-open PyYetiVerif.Extrema PyYetiVerif.ApplyUf
+open PyYetiVerif.Extrema PyYetiVerif.ApplyUf PyYetiVerif.ApplyUfFull PyYetiVerif.ExtremaPsd
+
+instance : Zero Float := ⟨0.0⟩
+instance : NatCast Float := ⟨Float.ofNat⟩
 
 def pv (s : String) : Option (Option Int) :=
   if s == "nan" then some none else s.toInt?.map some
@@ -88,6 +109,162 @@ def pMode : List String → Option (Mode Rat × List (Sample Rat))
 
 def fOut (o : Out Rat) : String :=
   s!"{fRat o.a} {fRat o.v} {fRat o.d} {fRat o.dStatic} {fRat o.dDynamic}"
+
+
+/-! ### doubles -/
+
+def pF (s : String) : Option Float := s.toNat?.map fun n => Float.ofBits (UInt64.ofNat n)
+def fF (x : Float) : String := toString x.toBits.toNat
+def pFs (s : String) : Option (List Float) := (toks s).mapM pF
+def fFs (xs : List Float) : String := " ".intercalate (xs.map fF)
+
+def chunkF (k : Nat) (l : List Float) : List (List Float) :=
+  if k = 0 then [] else
+  (List.range (l.length / k)).map fun i => (l.drop (i * k)).take k
+
+def transposeF (rows : List (List Float)) (ncol : Nat) : List (List Float) :=
+  (List.range ncol).map fun j => rows.map fun r => r.getD j 0.0
+
+/-- Gauss-Jordan inverse with partial pivoting; `none` when a pivot is exactly zero -/
+def gaussInv (A : List (List Float)) : Option (List (List Float)) := Id.run do
+  let n := A.length
+  let mut M : Array (Array Float) := (A.zipIdx.map fun (r, i) =>
+    (r ++ (List.range n).map fun j => if i == j then 1.0 else 0.0).toArray).toArray
+  for c in [0:n] do
+    -- pivot
+    let mut p := c
+    for r in [c+1:n] do
+      if (M[r]!)[c]!.abs > (M[p]!)[c]!.abs then p := r
+    if (M[p]!)[c]! == 0.0 then return none
+    let tmp := M[c]!
+    M := M.set! c M[p]!
+    M := M.set! p tmp
+    let piv := (M[c]!)[c]!
+    M := M.set! c ((M[c]!).map (· / piv))
+    for r in [0:n] do
+      if r != c then
+        let f := (M[r]!)[c]!
+        if f != 0.0 then
+          let rowc := M[c]!
+          M := M.set! r ((M[r]!).zipWith (fun x y => x - f * y) rowc)
+  return some (M.toList.map fun r => (r.toList.drop n))
+
+def pArgF (n : Nat) (s : String) : Option (Option (Arg Float)) :=
+  match toks s with
+  | ["none"] => some none
+  | "vec" :: vs => (vs.mapM pF).map fun v => some (.vec v)
+  | "mat" :: vs => (vs.mapM pF).map fun v => some (.mat (chunkF n v))
+  | _ => none
+
+def pUfF : List String → Option (Uf Float)
+  | [a, b, c, d] => do pure ⟨← pF a, ← pF b, ← pF c, ← pF d⟩
+  | _ => none
+
+def fFullOut (o : FullOut Float) : String :=
+  " , ".intercalate [fFs o.a, fFs o.v, fFs o.d, fFs o.ds, fFs o.dd]
+
+def ufFull (mode : String) (segs : List String) : String :=
+  match segs with
+  | dims :: rfS :: mS :: bS :: kS :: keS :: krS :: aS :: vS :: dS :: ufSegs =>
+    match (toks dims).mapM String.toNat?, (toks rfS).mapM String.toNat? with
+    | some [n, nrb, nt], some rf =>
+      match pArgF n mS, pArgF n bS, pFs kS, pFs keS, pFs krS, pFs aS, pFs vS, pFs dS,
+          ufSegs.mapM (fun s => pUfF (toks s)) with
+      | some m, some (some b), some k, some ke, some kr, some a, some v, some d, some ufs =>
+        let K := chunkF n k
+        let el := elasticIdx n nrb rf
+        let invs : Option (List (List Float) × List (List Float)) :=
+          if mode == "gauss" then do
+            let e ← gaussInv (pickM el el K)
+            let r ← gaussInv (pickM rf rf K)
+            pure (e, r)
+          else some (chunkF el.length ke, chunkF rf.length kr)
+        match invs with
+        | none => "singular"
+        | some (kinvE, kinvR) =>
+          let D : FullData Float := ⟨n, nrb, rf, m, b, K, kinvE, kinvR⟩
+          let A := transposeF (chunkF nt a) nt
+          let V := transposeF (chunkF nt v) nt
+          let Dd := transposeF (chunkF nt d) nt
+          let cols : List (FullCol Float) :=
+            (List.range nt).map fun t => ⟨A.getD t [], V.getD t [], Dd.getD t []⟩
+          let outs := applyFullSeq none D cols ufs
+          " | ".intercalate (outs.map fun o => " ; ".intercalate (o.map fFullOut))
+      | _, _, _, _, _, _, _, _, _ => "bad-op"
+    | _, _ => "bad-op"
+  | _ => "bad-op"
+
+def pTriples : List String → Option (List (List Float × List (Float × Float)))
+  | [] => some []
+  | F :: re :: im :: rest => do
+    let F ← pFs F
+    let re ← pFs re
+    let im ← pFs im
+    pure ((F, re.zip im) :: (← pTriples rest))
+  | _ => none
+
+def psdNum (pf : String) (segs : List String) : String :=
+  match pF pf, segs with
+  | some pf, fS :: rest =>
+    match pFs fS, pTriples rest with
+    | some f, some forces =>
+      let psd := psdRowAcc f.length forces
+      let pk := peakOf Float.sqrt pf f psd
+      fFs psd ++ " | " ++ fFs [pk.rms, pk.pk, pk.pkFreq]
+    | _, _ => "bad-op"
+  | _, _ => "bad-op"
+
+def psdExt (segs : List String) : String :=
+  match segs.mapM (fun s => match toks s with
+      | [l, v, x] => do pure (l, ← pv v, ← pv x)
+      | _ => none) with
+  | some cs =>
+    let r := psdRow (α := Int) (X := Option Int) (L := String) cs
+    fCur r.1 ++ " | " ++ " , ".intercalate (r.2.map fun p => s!"{fv p.1.v} {fv p.1.x} {fv p.2.v} {fv p.2.x}")
+  | none => "bad-op"
+
+def freqStoreAll (segs : List String) : String :=
+  match segs.mapM (fun s => (toks s).mapM pv) with
+  | some fs =>
+    match fs.foldl (fun st f => st.bind fun s => (freqStore s f).map some) (some none) with
+    | some _ => "ok"
+    | none => "value-error"
+  | none => "bad-op"
+
+def pairsOf : List String → List (String × String)
+  | a :: b :: r => (a, b) :: pairsOf r
+  | _ => []
+
+def mergeOp (segs : List String) : String :=
+  match segs with
+  | [ex, inc, ren] =>
+    let rn := pairsOf (toks ren)
+    let rename := fun e => ((rn.find? fun p => p.1 == e).map (·.2)).getD e
+    match mergeEvents rename (toks ex) (toks inc) with
+    | some ks => " ".intercalate ks
+    | none => "value-error"
+  | _ => "bad-op"
+
+def calcExtOp (segs : List String) : String :=
+  match segs with
+  | [mx, mn, cs] =>
+    match (toks mx).mapM pv, (toks mn).mapM pv with
+    | some mx, some mn =>
+      match calcExtRow mx mn (toks cs) with
+      | some c => s!"{fv c.hi.v} {c.hi.lab} {fv c.lo.v} {c.lo.lab}"
+      | none => "value-error"
+    | _, _ => "bad-op"
+  | _ => "bad-op"
+
+def statExtOp (k : String) (segs : List String) : String :=
+  match pF k, segs with
+  | some k, [mx, mn] =>
+    match pFs mx, pFs mn with
+    | some mx, some mn =>
+      let r := statExtRow Float.sqrt k mx mn
+      fFs [r.1, r.2]
+    | _, _ => "bad-op"
+  | _, _ => "bad-op"
 
 def answer (line : String) : String :=
   let segs := (line.splitOn ";").map (·.trimAscii.toString)
@@ -161,6 +338,20 @@ def answer (line : String) : String :=
         " | ".intercalate (outs.map fun o =>
           " ; ".intercalate (o.map fun row => " , ".intercalate (row.map fOut)))
       | _, _ => "bad-op"
+    | ["uffull", mode], body => ufFull mode body
+    | ["psdnum", pf], body => psdNum pf body
+    | ["psdext"], body => psdExt body
+    | ["freqstore"], body => freqStoreAll body
+    | ["merge"], body => mergeOp body
+    | ["calcext"], body => calcExtOp body
+    | ["statext", k], body => statExtOp k body
+    | ["addmm", mx, mn, x1, x2, hasx, mxc, mnc], [] =>
+      match pv mx, pv mn, pv x1, pv x2 with
+      | some mx, some mn, some x1, some x2 =>
+        let c : Cur Int (Option Int) String := addMaxminRow mx mn
+          (if hasx == "1" then some (x1, x2) else none) none mxc (if mnc == "-" then none else some mnc)
+        fCur (some c)
+      | _, _, _, _ => "bad-op"
     | _, _ => "bad-op"
 
 partial def loop (h : IO.FS.Stream) (out : IO.FS.Stream) : IO Unit := do
